@@ -47,6 +47,9 @@ struct PayHash {
     /// the bound was already exceeded when the invoice was approved (imbalance inherited from the
     /// tolerated uninvoiced phase): not caused by an accepted update, skipped until it heals
     tainted: bool,
+    /// the hash was approved again (new invoice/keysend accepted after the signer had dropped the
+    /// earlier one) while HTLCs from the earlier approval were still in flight
+    reapproved_with_inflight: bool,
 }
 
 struct Hist {
@@ -120,7 +123,7 @@ impl Hist {
             pre[..8].copy_from_slice(&((shard as u64) << 40 | index << 8 | k).to_le_bytes());
             pre[31] = 0x42;
             let hash = PaymentHash(sha256::Hash::hash(&pre).to_byte_array());
-            h.pool.push(PayHash { hash, preimage: pre, approved_msat: None, preimage_given: false, violating: false, tainted: false });
+            h.pool.push(PayHash { hash, preimage: pre, approved_msat: None, preimage_given: false, violating: false, tainted: false, reapproved_with_inflight: false });
         }
         // bootstrap commitment 0 on both sides of every channel through the real API
         for ci in 0..h.chans.len() {
@@ -296,8 +299,16 @@ impl Hist {
                     }
                     if exceeded && !self.pool[k].violating {
                         let multi = self.chans.iter().filter(|ch| ch.h_cur.as_ref().map(|c| sum_hash(&c.offered, &hash) > 0).unwrap_or(false) || ch.c_cur.as_ref().map(|c| sum_hash(&c.offered, &hash) > 0).unwrap_or(false)).count();
-                        let sig = format!("c06:invoice-overpaid-in-flight:after-{}:{}", after, if multi > 1 { "multi-channel" } else { "single-channel" });
-                        r.violation(&sig, self.witness(cli, json!({"hash": hex::encode(&hash.0[..4]), "outgoing_msat": out.to_string(), "incoming_msat": inc.to_string(), "approved_msat": amount, "max_routing_fee_msat": self.max_routing_fee_msat})));
+                        let sig = if self.pool[k].reapproved_with_inflight {
+                            "c06:invoice-overpaid-in-flight:hash-reapproved-with-htlcs-still-in-flight".to_string()
+                        } else {
+                            format!("c06:invoice-overpaid-in-flight:after-{}:{}", after, if multi > 1 { "multi-channel" } else { "single-channel" })
+                        };
+                        let signer_view = {
+                            let st = self.world.node.get_state();
+                            format!("{:?} invoice={:?}", st.payments.get(&hash), st.invoices.get(&hash))
+                        };
+                        r.violation(&sig, self.witness(cli, json!({"hash": hex::encode(&hash.0[..4]), "outgoing_msat": out.to_string(), "incoming_msat": inc.to_string(), "approved_msat": amount, "max_routing_fee_msat": self.max_routing_fee_msat, "signer_internal_view_for_diagnosis": signer_view})));
                     }
                     self.pool[k].violating = exceeded;
                 }
@@ -509,6 +520,9 @@ fn run_history(rng: &mut Rng, r: &mut Report, cli: &Cli, shard: usize, index: u6
                 if let Ok(true) = res {
                     if h.pool[k].approved_msat.is_none() {
                         r.count("approved");
+                    } else if h.pool[k].approved_msat != Some(amount) && h.outgoing_sat(&hash, None, None) > 0 {
+                        h.pool[k].reapproved_with_inflight = true;
+                        r.count("reapproved_with_htlcs_in_flight");
                     }
                     h.pool[k].approved_msat = Some(amount);
                     h.check_conservation(r, cli, None);
@@ -538,6 +552,13 @@ fn run_history(rng: &mut Rng, r: &mut Report, cli: &Cli, shard: usize, index: u6
             _ => {
                 h.world.advance_time(if rng.chance(1, 10) { rng.range(30, 4000) } else { rng.range(1, 5) });
             }
+        }
+        if cli.extra.contains_key("only") {
+            let st = h.world.node.get_state();
+            let mut v: Vec<String> = st.payments.iter().map(|(k, p)| format!("{}: in={:?} out={:?} pre={}", hex::encode(&k.0[..4]), p.incoming.values().collect::<Vec<_>>(), p.outgoing.values().collect::<Vec<_>>(), p.preimage.is_some())).collect();
+            v.sort();
+            let inv: Vec<String> = st.invoices.iter().map(|(k, i)| format!("{}:{}", hex::encode(&k.0[..4]), i.amount_msat)).collect();
+            eprintln!("{} | now={} payments={:?} invoices={:?}", h.log.last().map(|x| x.to_string()).unwrap_or_default().chars().take(230).collect::<String>(), h.world.now(), v, inv);
         }
         if h.log.len() > 300 {
             h.log.drain(0..150);
@@ -570,8 +591,14 @@ fn main() {
     let histories = cli.scaled(histories);
     let mut report = run_sharded("C06", cli.threads, shards, |i, r| {
         let mut rng = Rng::new(cli.seed.wrapping_mul(9_000_011).wrapping_add(i as u64));
+        let only: Option<(usize, u64)> = cli.extra.get("only").and_then(|s| s.split_once(':').map(|(a, b)| (a.parse().unwrap_or(0), b.parse().unwrap_or(0))));
         for hidx in 0..histories {
             let mut hr = rng.fork(hidx);
+            if let Some((os, oh)) = only {
+                if os != i || oh != hidx {
+                    continue;
+                }
+            }
             run_history(&mut hr, r, &cli, i, hidx, steps);
         }
     });
